@@ -5,7 +5,13 @@ ENGINES = [
          kind_free_text="two real ShipConnections + man-in-the-middle transport inside a testing/synctest bubble (virtual clock); rapid-generated scripts, JSON replay"),
     dict(name="wsfault", path="harness/wsfault", serves_properties=["C12", "C13"],
          kind_free_text="real ws.WebsocketConnection over gorilla/websocket over an in-memory fault-injecting net.Conn pair, synctest bubble"),
-    dict(name="mdnssim", path="harness/mdnssim", serves_properties=["C16", "C17", "C19"],
+    dict(name="hubnet", path="harness/hubnet", serves_properties=["C05", "C10", "C11", "C15", "C20"],
+         kind_free_text="2-3 real hub.Hub instances over loopback TLS+websocket, real MdnsManager on a harness mDNS fabric, per-pair TCP proxies; real time"),
+    dict(name="hubsim", path="harness/hubsim", serves_properties=["C18"],
+         kind_free_text="real hub.Hub inside a synctest bubble, harness plays the SHIP connections"),
+    dict(name="certid", path="harness/certid", serves_properties=["C02"],
+         kind_free_text="adversarial TLS/websocket client and server with generated certificates against a real started hub"),
+    dict(name="mdnssim", path="harness/mdnssim", serves_properties=["C16", "C17", "C19", "C20"],
          kind_free_text="real MdnsManager with fake provider / real AvahiProvider with a fake Avahi daemon / real hub as report sink, synctest bubble"),
 ]
 
@@ -72,6 +78,32 @@ META.update({
     "C19": dict(engine="mdnssim", design_ref="DESIGN.md 6/C19", note="trusted: fake Avahi daemon (availability, object invalidation, Disconnected also on Shutdown())",
                 text="Model-based: generated daemon fault / API call histories on the virtual clock against the model (desired announcement, shutdown flag).",
                 technique=_PBT + "model-based with injected daemon faults on a virtual clock"),
+})
+
+_RT = ("real time: verdicts never depend on a wall-clock deadline being met - safety clauses use a load-aware grace, convergence is polled and "
+       "'still busy at the bound' is inconclusive; the schedule of a failing scenario is not reproducible, only its script (re-executed and reported with the reproduction count)")
+META.update({
+    "C02": dict(engine="certid", design_ref="DESIGN.md 6/C02", note="trusted: Go's crypto/tls and crypto/x509 as the peer's implementation; refusal = no SHIP byte within 400 ms and no callback",
+                text="Generated certificates, TLS versions, sub-protocol offers and (dialled, presented) SKI pairs against a real hub over real sockets; "
+                     "oracle on what the adversarial peer receives and which SKI the hub attributes.",
+                technique=_PBT + "generated adversarial peers (certificate/TLS/sub-protocol space), acceptance oracle"),
+    "C05": dict(engine="hubnet", design_ref="DESIGN.md 6/C05", note=_RT,
+                text="Generated registration/visibility timings and disturbance sequences on two real hubs; convergence oracle (one completed connection on "
+                     "both sides, one TCP connection, payloads both ways), liveness decided up to a bound.",
+                technique=_PBT + "generated fault/timing scenarios on real hubs, convergence oracle at quiescence"),
+    "C10": dict(engine="hubnet", design_ref="DESIGN.md 6/C10", note=_RT,
+                text="Generated user-operation / mDNS histories on three real hubs with attributable outbound TCP connections; model of user intent "
+                     "(registered intervals) checked against accept and callback timestamps.",
+                technique=_PBT + "model-based (user-intent model) over generated operation histories with real timing"),
+    "C15": dict(engine="hubnet", design_ref="DESIGN.md 6/C15", note=_RT,
+                text="Differential/metamorphic: the same scenario on two fresh pairs of real hubs with canonical vs re-formatted SKI must settle in the same observable state.",
+                technique=_PBT + "metamorphic / differential twin execution"),
+    "C18": dict(engine="hubsim", design_ref="DESIGN.md 6/C18", note="trusted: the harness plays the SHIP connections through the hub's exported entry points; virtual clock",
+                text="Generated notification histories on a real hub in a bubble; last notification equals the hub's own answer, delivered order is a subsequence of the hub's state sequence.",
+                technique=_PBT + "generated histories and scheduler settings, history-order oracle"),
+    "C20": dict(engine="hubnet", design_ref="DESIGN.md 6/C20", note="the race detector only reports races on executed interleavings",
+                text="All concurrent engines under the Go race detector with generated concurrent operation mixes; every report is a violation unless its key is a listed finding.",
+                technique=_PBT + "generated concurrent workloads under the Go race detector (dynamic race detection)"),
 })
 
 _pending = "machinery for this property is not built yet (work in progress, see DESIGN.md section 6)"
